@@ -5,7 +5,6 @@
 From Coq Require Import ZArith QArith List Bool.
 Require Import SkV.Lib.Base SkV.Lib.ZRange SkV.C11.Model SkV.C11.Proofs SkV.C03.Model SkV.C03.Proofs.
 Require Import SkV.C11.Gen SkV.C11.Bridge SkV.C03.Site SkV.C03.Bridge.
-Require SkV.C20.Model SkV.C20.Gen.
 Import ListNotations.
 Open Scope Z_scope.
 
@@ -110,8 +109,8 @@ Print Assumptions C03_shift_relative_horizon.
    gen_fit_state / gen_update_state / gen_pred_index / gen_leaf_values / gen_model_run are assembled
    (C03/Bridge.v) from definitions regenerated on this run: C03/Site.v (cutoff := y.index[-1] in
    _set_y_X / _update_y_X, the non-empty guard, the refit of update, EVERY prediction-index site in
-   the scope), C11/Gen.v (ForecastingHorizon arithmetic, NaiveForecaster.fit and
-   _predict_last_window, the polynomial time axis), C20/Gen.v (_set_fh). *)
+   the scope, _set_fh of the optional-horizon mixin), C11/Gen.v (ForecastingHorizon arithmetic, NaiveForecaster.fit and
+   _predict_last_window, the polynomial time axis). *)
 
 Theorem C03_code_is_model :
   (forall s, gen_fit_state s = fit_state s) /\
@@ -153,11 +152,10 @@ Proof. intros s ups. rewrite bridge_run_state. exact (proj1 (C03_cutoff_after_hi
 Print Assumptions C03_code_cutoff_after_history.
 
 (* the horizon predict uses, by the regenerated _set_fh: the one passed to predict, else the one
-   remembered from fit; lf / lp = the checked horizons passed to fit / predict (None = not passed) *)
-Theorem C03_code_horizon_used : forall hf hp lf lp,
-  checked hf = Ok lf -> checked hp = Ok lp ->
+   remembered from fit; hf / hp = the validated horizons passed to fit / predict (None = not passed) *)
+Theorem C03_code_horizon_used : forall hf hp,
   code_horizon hf hp =
-  match used_fh (option_map Rel lf) (option_map Rel lp) with
+  match used_fh (option_map Rel hf) (option_map Rel hp) with
   | Ok h => Ok (Some (hlist h))
   | Err => Err
   end.
